@@ -7,16 +7,21 @@ import tempfile
 sys.path.insert(0, os.path.join(os.path.dirname(os.path.abspath(__file__)), "..", "lib"))
 sys.path.insert(0, os.path.dirname(os.path.abspath(__file__)))
 import framework  # noqa: E402
+import coqrun  # noqa: E402
 import frontcases as fc  # noqa: E402
 import lexcases as lc  # noqa: E402
+import opcases as oc  # noqa: E402
+import progcases as pc  # noqa: E402
 
 PID = "C17"
 TARGETS = ["Properties/C17.vo"]
-MODEL_TARGETS = ["Model/Lexer.vo", "Model/Ifdef.vo"]
+MODEL_TARGETS = ["Model/Lexer.vo", "Model/Ifdef.vo", "Model/Preproc.vo", "Model/EncOp.vo"]
 ASSUMPTIONS = [
-    "PARTIAL: the theorems give the location recorded in every token (Model/Lexer.v) and the preservation of line "
-    "numbers by conditional compilation (Model/Ifdef.v); which token a diagnostic is attached to, the quoted line, "
-    "the caret, include attribution and run-time warnings are decided by the planted-fault oracle",
+    "PARTIAL: the theorems give the location recorded in every token (Model/Lexer.v), the preservation of line "
+    "numbers by conditional compilation (Model/Ifdef.v) and what the type checker attaches each diagnostic to "
+    "(Model/Preproc.v: an operand fault to that operand's token, a wrong operand count to the operation); parser "
+    "diagnostics, the quoted line, the caret, include attribution and run-time warnings are decided by the "
+    "planted-fault oracle",
     "ASCII texts; a tab counts as one column (align_caret reproduces tabs when printing)",
 ]
 TRUSTED = ["coq/Model/Lexer.v", "coq/Model/Ifdef.v"]
@@ -75,7 +80,41 @@ def correspondence(ctx, model_available=True):
     cases = fc.ifdef_cases(rng, 100 if quick else 1500)
     ires = fc.compare_ifdefs("C17i", cases, model_available)
     spec_failures += ires["spec_failures"]
-    st = {"planted": 0, "by_fault": {}, "included": 0, "runtime": 0}
+    # what each checker diagnostic is attached to (operand token / operation): Model/Preproc vs the real checker
+    att = {"programs": 0, "messages": 0, "on_operand": 0, "on_operation": 0, "agree": 0}
+    attach_dis = []
+    if model_available:
+        acases = []
+        for k in range(150 if quick else 2500):
+            lines = pc.mutate(rng, pc.gen_valid(rng))
+            cfg = pc.settings_for(rng)
+            text = "\n".join(lines) + "\n"
+            ops, pm = pc.real_parse(text, cfg)
+            if ops is None or pm.get("errors"):
+                continue
+            desc = [oc.describe_real_op(o) for o in ops]
+            for dd in desc:
+                dd["toks"] = [list(pc.fix_tok(t)) for t in dd["toks"]]
+            acases.append((text, cfg, ops, desc))
+        outs = coqrun.eval_cases("C17a", pc.HEADER, ["enc_check (check %s %s)" % (pc.cs_term(cfg), pc.ops_term(desc))
+                                                      for _, cfg, _, desc in acases], shard=60)
+        for (text, cfg, ops, _), o in zip(acases, outs):
+            r = pc.real_check(ops, cfg)
+            m = pc.decode_check(o)
+            att["programs"] += 1
+            if "raise" in r or "raise" in m:
+                continue
+            for key in ("error_locs", "warning_locs"):
+                att["messages"] += len(r[key])
+                att["on_operand"] += sum(1 for l in r[key] if l[0] == "tok")
+                att["on_operation"] += sum(1 for l in r[key] if l[0] == "op")
+            if (r["errors"], r["error_locs"], r["warnings"], r["warning_locs"]) == (m["errors"], m["error_locs"], m["warnings"], m["warning_locs"]):
+                att["agree"] += 1
+            else:
+                attach_dis.append({"what": "checker diagnostics (text, attachment) vs Model/Preproc", "program": text, "settings": cfg,
+                                   "impl": [r["errors"], r["error_locs"], r["warnings"], r["warning_locs"]],
+                                   "model": [m["errors"], m["error_locs"], m["warnings"], m["warning_locs"]]})
+    st = {"planted": 0, "by_fault": {}, "included": 0, "runtime": 0, "attachment": att}
     for _ in range(300 if quick else 5000):
         f = fc.planted_fault(rng)
         st["planted"] += 1
@@ -110,7 +149,7 @@ def correspondence(ctx, model_available=True):
         "distribution": {"lexer_cases": lres["cases"], "tokens_located": lres["tokens"], "ifdef_cases": ires["cases"], **st},
         "samples": [{"text": texts[len(lc.SNIPPETS)]}],
         "disagreements": [{"what": "lexer vs Model/Lexer", **d} for d in lres["disagreements"][:5]]
-        + [{"what": "evaluate_ifdefs vs Model/Ifdef", **d} for d in ires["disagreements"][:5]],
+        + [{"what": "evaluate_ifdefs vs Model/Ifdef", **d} for d in ires["disagreements"][:5]] + attach_dis[:5],
         "spec_failures": spec_failures[:5],
         "model_vs_impl_agree": lres["agree"] + ires["agree"], "model_available": model_available,
     }
